@@ -137,8 +137,14 @@ def run(rep: Report, tier: str) -> None:  # noqa: C901
         ok = len(appends) == 1 and len(incs) == 1 and ifn.body.index(incs[0]) < ifn.body.index(appends[0])
         if ok:
             cnt = src(incs[0].target)
-            passed = [src(k.value) for c in ast.walk(appends[0]) if isinstance(c, ast.Call) for k in c.keywords if k.arg == "count"]
-            ok = passed == [cnt]
+            # the item appended is generated (in the append statement or in a statement between the increment and it) with count=<that counter>
+            span = ifn.body[ifn.body.index(incs[0]) + 1:ifn.body.index(appends[0]) + 1]
+            passed = [src(k.value) for st_ in span for c in ast.walk(st_) if isinstance(c, ast.Call) for k in c.keywords if k.arg == "count"]
+            ok = passed == [cnt] and all(isinstance(st_, (ast.Assign, ast.Expr)) for st_ in span)
+            arg0 = appends[0].value.args[0] if appends[0].value.args else None
+            if ok and isinstance(arg0, ast.Name):  # appended through a temporary: it must be the item generated in this branch
+                ok = any(isinstance(st_, ast.Assign) and any(isinstance(t, ast.Name) and t.id == arg0.id for t in st_.targets) and isinstance(st_.value, ast.Call)
+                         and any(k.arg == "count" for k in st_.value.keywords) for st_ in span)
         if not ok:
             rep.add(_finding("R25.2", key, a2s, ifn.lineno, f"the {sorted(names)} branch does not (increment its own counter exactly once, then append one item numbered by it): "
                                                            f"item ids would repeat or an item would be missing"))
